@@ -25,6 +25,7 @@
    cbor_load by HLoad_proofs.load_h_clean_failure; serialization by HRead_proofs (read-only). *)
 From CB Require Import Word Word_proofs PMem PItem PBuild HHeap HItems HOps HHist.
 From CB Require Import HRef_proofs HCont_proofs HRead_proofs HLoad_proofs HCopy_proofs HHist_proofs.
+From CB Require Import HHist2 HHist3 HHist2_proofs HHist3_proofs.
 From CB Require Import HStepInv_proofs HTrace_proofs HFrame_proofs HSeq_proofs.
 From Coq Require Import Lia ZArith List.
 Import ListNotations.
@@ -569,7 +570,237 @@ Proof.
               ex06_legal R E F) as (A & B & C & _). auto.
 Qed.
 
+(* ------------------------------------------------------------------------------------------ *)
+(* 5. the third layer of client calls (HHist3.step3)                                           *)
+(* ------------------------------------------------------------------------------------------ *)
+
+(* failure values of the calls of the third layer *)
+Definition failed3 (o : op3) (r : out3) : bool :=
+  match o, r with
+  | O3Old o, Out r => failed o r
+  | (O3NewDefString _ | O3NewInt _ | O3NewFloat _ | O3NewCtrl | O3BuildBool _ | O3NewNull | O3NewUndef
+     | O3BuildString0 _ | O3BuildTagMove _ _), Out (OutHandle false) => true
+  | (O3SetHandleNew _ _ | O3PushMove _ _ | O3MapAddMove _ _ _), Out (OutBool false) => true
+  | O3SerializeTyped _ _ _, Out (OutBytes N0 _) => true
+  | _, _ => false
+  end.
+
+(* the items whose reference the client hands over with cbor_move BEFORE the call is made, in the
+   idioms f(.., cbor_move(x)): their count is one lower whether or not f then succeeds *)
+Definition moved (s : cstate3) (o : op3) : list addr :=
+  match o with
+  | O3PushMove a x => match hget (base s) a, hget (base s) x with Some _, Some q => [q] | _, _ => [] end
+  | O3MapAddMove m k v =>
+      match hget (base s) m, hget (base s) k, hget (base s) v with Some _, Some q, Some r => [q; r] | _, _, _ => [] end
+  | O3BuildTagMove _ x => match hget (base s) x with Some q => [q] | None => [] end
+  | _ => []
+  end.
+
+Lemma move_inv q w r w' : move q w = Ret r w' ->
+  exists rc n, heap w q = Some (CItem rc n) /\ (forall b, heap w' b = upd (heap w) q (Some (CItem (sub64 rc 1) n)) b) /\ next w' = next w.
+Proof.
+  unfold move. intros H. apply bind_inv in H. destruct H as ([rc n] & w1 & E1 & H).
+  apply rd_item_ret in E1. destruct E1 as [Eq ->]. cbn [fst snd] in H.
+  apply bind_inv in H. destruct H as ([] & w2 & E2 & H). apply ret_inv in H. destruct H as [_ ->].
+  apply wr_item_ret in E2. destruct E2 as [_ ->]. exists rc, n. split; [exact Eq|]. split; reflexivity.
+Qed.
+
+Section Atomic3.
+Variable refuse : N -> N -> bool.
+Variable L : N.
+
+Lemma lift3_inv s (m : M (cstate * out)) w s' r w' : lift3 s m w = Ret (s', r) w' ->
+  exists sb rb, m w = Ret (sb, rb) w' /\ s' = mkcs3 sb (unset s) /\ r = Out rb.
+Proof.
+  unfold lift3. intros H. apply bind_inv in H. destruct H as ([sb rb] & w1 & E & H).
+  apply ret_inv in H. destruct H as [H ->]. injection H as -> ->. eauto.
+Qed.
+
+Definition table3_grows_null (s s' : cstate3) : Prop := table_grows_null (base s) (base s') /\ unset s' = unset s.
+
+(* C06 for the third layer.  A failing call leaves every cell as it was and nothing allocated -
+   EXCEPT that in the idioms f(.., cbor_move(x)) the count of the moved item x is one lower (two lower
+   for cbor_map_add with the same item as key and value): cbor_move has been evaluated before f was
+   called, so a failing f does not give the reference back. *)
+Theorem C06_step3_atomic : forall s own ownd w o s' r w',
+  Inv own ownd [] w -> legal3 s own w o ->
+  step3 refuse L s o w = Ret (s', r) w' -> failed3 o r = true ->
+  (forall b, ~ In b (moved s o) -> heap w' b = heap w b) /\
+  (forall b, In b (moved s o) -> exists rc n, heap w b = Some (CItem rc n) /\ heap w' b = Some (CItem (rc - cnt b (moved s o)) n)) /\
+  (forall b, heap w' b <> None -> heap w b <> None) /\
+  next w <= next w' /\ table3_grows_null s s' /\
+  (moved s o = [] -> Inv own ownd [] w').
+Proof.
+  intros s own ownd w o s' r w' I0 Lg E F. pose proof (Inv_wf _ _ _ _ I0) as Hwf.
+  (* the common conclusion when nothing is moved and the heap is pointwise the same *)
+  assert (Same : moved s o = [] -> (forall b, heap w' b = heap w b) -> next w <= next w' -> table3_grows_null s s' ->
+            (forall b, ~ In b (moved s o) -> heap w' b = heap w b) /\
+            (forall b, In b (moved s o) -> exists rc n, heap w b = Some (CItem rc n) /\ heap w' b = Some (CItem (rc - cnt b (moved s o)) n)) /\
+            (forall b, heap w' b <> None -> heap w b <> None) /\
+            next w <= next w' /\ table3_grows_null s s' /\ (moved s o = [] -> Inv own ownd [] w')).
+  { intros Hm P Hn Ht. rewrite Hm. split; [intros b _; apply P|]. split; [intros b []|].
+    split; [intros b Hb; rewrite <- P; exact Hb|]. split; [exact Hn|]. split; [exact Ht|].
+    intros _. eapply Inv_heq; [exact I0|exact P|exact Hn]. }
+  assert (Heq : forall w1, heap w1 = heap w /\ next w1 = next w -> (forall b, heap w1 b = heap w b) /\ next w <= next w1).
+  { intros w1 [A B]. split; [intros b; rewrite A; reflexivity|lia]. }
+  assert (Tpush : table3_grows_null s (mkcs3 (hpush (base s) None) (unset s))) by (split; [right; reflexivity|reflexivity]).
+  assert (Tsame : table3_grows_null s s) by (split; [left; reflexivity|reflexivity]).
+  assert (Tsame' : table3_grows_null s (mkcs3 (base s) (unset s))) by (split; [left; reflexivity|reflexivity]).
+  destruct o as [o|text|h bytes|h n|iw|iw h v|neg h|fw|fw h bits| |h v|h b|b| | |h|a x|m k v|t x|v x|h|bytes|k h n|h|h];
+    cbn [step3 failed3 legal3] in *.
+  - (* a call of the first layer *)
+    destruct r as [r|l0]; [|discriminate F]. destruct Lg as [Lg _].
+    unfold old3 in E. destruct (forallb (is_set s) (op_reads o)); [|discriminate E].
+    apply lift3_inv in E. destruct E as (sb & rb & E & -> & Er). injection Er as <-.
+    destruct (C06_step_atomic refuse L (base s) own ownd w o sb r w' I0 Lg E F) as (_ & _ & Ht & _ & P & Hn).
+    apply Same; [reflexivity|exact P|exact Hn|split; [exact Ht|reflexivity]].
+  - destruct r as [[[|]| | | | | | |]|]; try discriminate F.
+    apply lift3_inv in E. destruct E as (sb & rb & E & -> & Er). injection Er as <-.
+    unfold new_definite_string_op in E. destruct (newh_failed _ _ _ _ _ _ E eq_refl) as [E1 ->].
+    destruct (Heq _ (malloc_none _ _ _ _ _ E1)). apply Same; auto.
+  - destruct r as [[|[|]| | | | | |]|]; try discriminate F.
+    apply lift3_inv in E. destruct E as (sb & rb & E & -> & Er). injection Er as <-.
+    unfold set_handle_new in E. destruct (hget (base s) h) as [a|]; [|apply ret_inv in E; destruct E as [E _]; discriminate E].
+    apply bind_inv in E. destruct E as (d & w1 & E1 & E). destruct d as [d|].
+    + exfalso. apply bind_inv in E. destruct E as (c & w2 & _ & E).
+      destruct (snd c) as [| | |text data bs| | | |]; try discriminate E. destruct data; [discriminate E|]. ret_ne E.
+    + apply ret_inv in E. destruct E as [E ->]. injection E as ->.
+      destruct (Heq _ (malloc_none _ _ _ _ _ E1)). apply Same; auto.
+  - discriminate F.
+  - destruct r as [[[|]| | | | | | |]|]; try discriminate F.
+    unfold new_int in E. apply bind_inv in E. destruct E as (x & w1 & E1 & E). apply ret_inv in E. destruct E as [E ->].
+    destruct x as [a|]; [discriminate E|]. injection E as ->.
+    destruct (Heq _ (malloc_none _ _ _ _ _ E1)). apply Same; auto.
+  - discriminate F.
+  - discriminate F.
+  - destruct r as [[[|]| | | | | | |]|]; try discriminate F.
+    unfold new_float in E. apply bind_inv in E. destruct E as (x & w1 & E1 & E). apply ret_inv in E. destruct E as [E ->].
+    destruct x as [a|]; [discriminate E|]. injection E as ->.
+    destruct (Heq _ (malloc_none _ _ _ _ _ E1)). apply Same; auto.
+  - discriminate F.
+  - destruct r as [[[|]| | | | | | |]|]; try discriminate F.
+    unfold new_ctrl in E. apply lift3_inv in E. destruct E as (sb & rb & E & -> & Er). injection Er as <-.
+    destruct (newh_failed _ _ _ _ _ _ E eq_refl) as [E1 ->]. unfold new_ctrl_item in E1.
+    destruct (Heq _ (malloc_none _ _ _ _ _ E1)). apply Same; auto.
+  - discriminate F.
+  - discriminate F.
+  - destruct r as [[[|]| | | | | | |]|]; try discriminate F.
+    unfold build_bool in E. apply lift3_inv in E. destruct E as (sb & rb & E & -> & Er). injection Er as <-.
+    destruct (newh_failed _ _ _ _ _ _ E eq_refl) as [E1 ->]. unfold build_ctrl in E1.
+    destruct (Heq _ (malloc_none _ _ _ _ _ E1)). apply Same; auto.
+  - destruct r as [[[|]| | | | | | |]|]; try discriminate F.
+    unfold new_ctrl_set in E. apply lift3_inv in E. destruct E as (sb & rb & E & -> & Er). injection Er as <-.
+    destruct (newh_failed _ _ _ _ _ _ E eq_refl) as [E1 ->].
+    apply bind_inv in E1. destruct E1 as (x & w1 & E1 & E2). destruct x as [a|]; [exfalso; ret_ne E2|].
+    apply ret_inv in E2. destruct E2 as [_ ->]. unfold new_ctrl_item in E1.
+    destruct (Heq _ (malloc_none _ _ _ _ _ E1)). apply Same; auto.
+  - destruct r as [[[|]| | | | | | |]|]; try discriminate F.
+    unfold new_ctrl_set in E. apply lift3_inv in E. destruct E as (sb & rb & E & -> & Er). injection Er as <-.
+    destruct (newh_failed _ _ _ _ _ _ E eq_refl) as [E1 ->].
+    apply bind_inv in E1. destruct E1 as (x & w1 & E1 & E2). destruct x as [a|]; [exfalso; ret_ne E2|].
+    apply ret_inv in E2. destruct E2 as [_ ->]. unfold new_ctrl_item in E1.
+    destruct (Heq _ (malloc_none _ _ _ _ _ E1)). apply Same; auto.
+  - discriminate F.
+  - (* cbor_array_push(a, cbor_move(x)) *)
+    destruct r as [[|[|]| | | | | |]|]; try discriminate F. unfold push_move in E. cbn [moved].
+    destruct (hget (base s) a) as [p|] eqn:Ha; [|apply ret_inv in E; destruct E as [E _]; discriminate E].
+    destruct (hget (base s) x) as [q|] eqn:Hx; [|apply ret_inv in E; destruct E as [E _]; discriminate E].
+    destruct (Lg p q eq_refl eq_refl) as (_ & _ & _ & _ & _ & (rcq & nq & Eq & Hrc & _)).
+    destruct (is_set s x); [|discriminate E].
+    apply bind_inv in E. destruct E as (u & w1 & E1 & E). apply bind_inv in E. destruct E as (b & w2 & E2 & E).
+    apply ret_inv in E. destruct E as [E ->]. injection E as Es Eb. subst s'. try subst b.
+    destruct (move_inv _ _ _ _ E1) as (rc0 & n0 & Eq0 & H1 & N1). rewrite Eq in Eq0. injection Eq0 as <- <-.
+    destruct (array_push_false _ _ _ _ _ E2) as [H2 N2]. rewrite sub64_1 in H1 by lia.
+    split; [|split; [|split; [|split; [lia|split; [exact Tsame|discriminate]]]]].
+    + intros b Hb. rewrite H2, H1. apply upd_other. intros ->. apply Hb. left. reflexivity.
+    + intros b [<-|[]]. exists rcq, nq. split; [exact Eq|]. rewrite H2, H1, upd_same. cbn [cnt]. rewrite N.eqb_refl. reflexivity.
+    + intros b Hb. destruct (N.eq_dec b q) as [Hq|Nq]; [subst b; rewrite Eq; discriminate|]. rewrite H2, H1, upd_other in Hb by exact Nq. exact Hb.
+  - (* cbor_map_add(m, {cbor_move(k), cbor_move(v)}) *)
+    destruct r as [[|[|]| | | | | |]|]; try discriminate F. unfold map_add_move in E. cbn [moved].
+    destruct (hget (base s) m) as [p|] eqn:Hm; [|apply ret_inv in E; destruct E as [E _]; discriminate E].
+    destruct (hget (base s) k) as [q|] eqn:Hk; [|apply ret_inv in E; destruct E as [E _]; discriminate E].
+    destruct (hget (base s) v) as [rr|] eqn:Hv; [|apply ret_inv in E; destruct E as [E _]; discriminate E].
+    destruct (Lg p q rr eq_refl eq_refl eq_refl) as (_ & _ & _ & _ & _ & _ & _ & _ & _ & (rcq & nq & Eq & Hrq & _ & Hqq) & (rcr & nr & Er & Hrr & _)).
+    destruct (is_set s k && is_set s v); [|discriminate E].
+    apply bind_inv in E. destruct E as (u & w1 & E1 & E). apply bind_inv in E. destruct E as (u2 & w2 & E2 & E).
+    apply bind_inv in E. destruct E as (b & w3 & E3 & E).
+    apply ret_inv in E. destruct E as [E ->]. injection E as Es Eb. subst s'. try subst b.
+    destruct (move_inv _ _ _ _ E1) as (rc0 & n0 & Eq0 & H1 & N1). rewrite Eq in Eq0. injection Eq0 as <- <-.
+    destruct (move_inv _ _ _ _ E2) as (rc1 & n1 & Er1 & H2 & N2).
+    destruct (map_add_false _ _ _ _ _ _ E3) as [H3 N3]. rewrite sub64_1 in H1 by lia.
+    split; [|split; [|split; [|split; [lia|split; [exact Tsame|discriminate]]]]].
+    + intros b Hb. rewrite H3, H2, upd_other by (intros ->; apply Hb; right; left; reflexivity).
+      rewrite H1. apply upd_other. intros ->. apply Hb. left. reflexivity.
+    + intros b Hb. destruct (N.eq_dec q rr) as [<-|Hqr].
+      * assert (b = q) by (destruct Hb as [<-|[<-|[]]]; reflexivity). subst b.
+        rewrite H1, upd_same in Er1. injection Er1 as <- <-. rewrite sub64_1 in H2 by (specialize (Hqq eq_refl); lia).
+        exists rcq, nq. split; [exact Eq|]. rewrite H3, H2, upd_same. cbn [cnt]. rewrite N.eqb_refl. first [reflexivity|f_equal; f_equal; lia].
+      * rewrite H1, upd_other in Er1 by congruence. rewrite Er in Er1. injection Er1 as <- <-.
+        rewrite sub64_1 in H2 by lia.
+        destruct Hb as [<-|[<-|[]]].
+        -- exists rcq, nq. split; [exact Eq|]. rewrite H3, H2, upd_other by exact Hqr. rewrite H1, upd_same. cbn [cnt].
+           rewrite N.eqb_refl. destruct (N.eqb_spec rr q); [congruence|]. first [reflexivity|f_equal; f_equal; lia].
+        -- exists rcr, nr. split; [exact Er|]. rewrite H3, H2, upd_same. cbn [cnt].
+           rewrite N.eqb_refl. destruct (N.eqb_spec q rr); [congruence|]. first [reflexivity|f_equal; f_equal; lia].
+    + intros b Hb. destruct (N.eq_dec b rr) as [Hr|Nr]; [subst b; rewrite Er; discriminate|].
+      destruct (N.eq_dec b q) as [Hq|Nq]; [subst b; rewrite Eq; discriminate|].
+      rewrite H3, H2, upd_other in Hb by exact Nr. rewrite H1, upd_other in Hb by exact Nq. exact Hb.
+  - discriminate F.
+  - (* cbor_build_tag(v, cbor_move(x)) *)
+    destruct r as [[[|]| | | | | | |]|]; try discriminate F. unfold build_tag_move in E. cbn [moved].
+    destruct (hget (base s) x) as [q|] eqn:Hx; [|apply ret_inv in E; destruct E as [E _]; discriminate E].
+    destruct (Lg q eq_refl) as (_ & _ & (rcq & nq & Eq & Hrc & _)).
+    destruct (is_set s x); [|discriminate E].
+    apply bind_inv in E. destruct E as (u & w1 & E1 & E).
+    apply lift3_inv in E. destruct E as (sb & rb & E & -> & Er). injection Er as <-.
+    destruct (newh_failed _ _ _ _ _ _ E eq_refl) as [E2 ->].
+    destruct (move_inv _ _ _ _ E1) as (rc0 & n0 & Eq0 & H1 & N1). rewrite Eq in Eq0. injection Eq0 as <- <-.
+    destruct (build_tag_none _ _ _ _ _ E2) as [H2 N2]. rewrite sub64_1 in H1 by lia.
+    split; [|split; [|split; [|split; [lia|split; [exact Tpush|discriminate]]]]].
+    + intros b Hb. rewrite H2, H1. apply upd_other. intros ->. apply Hb. left. reflexivity.
+    + intros b [<-|[]]. exists rcq, nq. split; [exact Eq|]. rewrite H2, H1, upd_same. cbn [cnt]. rewrite N.eqb_refl. reflexivity.
+    + intros b Hb. destruct (N.eq_dec b q) as [Hq|Nq]; [subst b; rewrite Eq; discriminate|]. rewrite H2, H1, upd_other in Hb by exact Nq. exact Hb.
+  - discriminate F.
+  - destruct r as [[[|]| | | | | | |]|]; try discriminate F.
+    unfold build_string0 in E. apply lift3_inv in E. destruct E as (sb & rb & E & -> & Er). injection Er as <-.
+    destruct (newh_failed _ _ _ _ _ _ E eq_refl) as [E1 ->].
+    destruct (build_string_none _ _ _ _ _ Hwf E1). apply Same; auto.
+  - (* the typed serializers *)
+    destruct r as [[| | | |[|] bs| | |]|]; try discriminate F. unfold serialize_typed in E.
+    destruct (hget (base s) h) as [a|]; [|apply ret_inv in E; destruct E as [E _]; discriminate E].
+    destruct (memN a (unset s)); [discriminate E|].
+    apply bind_inv in E. destruct E as (c & w1 & E1 & E). apply rd_same in E1.
+    apply bind_inv in E. destruct E as (u & w2 & E2 & E).
+    assert (w2 = w1) by (destruct (skind_id (node_kind (snd c)) =? skind_id k); [apply ret_inv in E2; destruct E2 as [_ ->]; reflexivity|discriminate E2]).
+    subst w2. apply bind_inv in E. destruct E as (rr & w3 & E3 & E).
+    destruct (serialize_readonly a n w1 rr w3 E3) as (H3 & N3 & _).
+    destruct rr as [[wr bs']|]; [|discriminate E]. apply ret_inv in E. destruct E as [E ->]. injection E as <- _.
+    destruct E1 as [H1 N1]. apply Same; [reflexivity|intros b; rewrite H3, H1; reflexivity|lia|exact Tsame].
+  - discriminate F.
+  - discriminate F.
+Qed.
+
+End Atomic3.
+
+(* the exception is real: a failing cbor_array_push(a, cbor_move(x)) (definite array full) returns
+   false and leaves x with a count one lower - the reference the client moved is not given back *)
+Example ex06_push_move_not_restored :
+  let ops := [O3Old (ONewDefArray 0); O3Old (OBuildInt false I8 7); O3Old (OIncref 1)]%nat in
+  match run_hist3 never 8 ops s3_0 [] world0 with
+  | Ret (s, _) w =>
+      match step3 never 8 s (O3PushMove 0 1) w with
+      | Ret (s', r) w' =>
+          r = Out (OutBool false) /\ failed3 (O3PushMove 0 1) r = true /\ moved s (O3PushMove 0 1) = [3] /\
+          heap w 3 = Some (CItem 2 (NInt false I8 7)) /\ heap w' 3 = Some (CItem 1 (NInt false I8 7)) /\
+          heap w' 1 = heap w 1 /\ heap w' 2 = heap w 2 /\ live_count w' = live_count w
+      | Fault _ => False
+      end
+  | Fault _ => False
+  end.
+Proof. vm_compute. repeat split. Qed.
+
 Print Assumptions C06_step_atomic.
+Print Assumptions C06_step3_atomic.
 Print Assumptions C06_step_total_atomic.
 Print Assumptions C06_history_atomic.
 Print Assumptions ex06_legal.
